@@ -64,7 +64,7 @@ def _sym_eval(e, leaf, x):
             return None
         if e.op in ('<<', '>>') and not 0 <= b < 64:
             return None
-        v = {'|': a | b, '&': a & b, '<<': a << b, '>>': a >> b}[e.op]
+        v = (a | b) if e.op == '|' else (a & b) if e.op == '&' else (a << b) if e.op == '<<' else (a >> b)
         ti = ct.tinfo(e.ctype) if e.ctype else ('other',)
         if ti[0] == 'int':
             v &= (1 << ti[1]) - 1
@@ -72,51 +72,76 @@ def _sym_eval(e, leaf, x):
     return None
 
 
+def _try_swap(v, inner, W, found):
+    """bswapW(leaf) when the or-tree `inner` (seen through `v`, which may add a narrowing cast) is built from one leaf by shifts, masks
+    and ors only and equals the W-bit byte reversal of that leaf on 0, all ones and every single-bit value (these operators
+    distribute over bitwise or); W = None: the leaf's own width"""
+    # candidate "value being reversed": found by descending from the first or-branch through the shift/mask operators (left operands);
+    # every cast met on the way and the first other term are candidates, outermost first
+    cands = []
+    e = inner
+    while is_sym(e):
+        ti = ct.tinfo(e.ctype) if e.ctype else ('other',)
+        if e.op == 'cast':
+            if ti[0] == 'int' and not ti[2] and (W is None or ti[1] <= W) and e is not inner:
+                cands.append(e)
+            e = e.args[0]
+            continue
+        if e.op in ('|', '&', '<<', '>>') and len(e.args) == 2:
+            if isinstance(e.args[1], int) and is_sym(e.args[0]):
+                # the operand of a constant mask / shift may itself be an and/or term (the value an RMW `and`/`or` computed)
+                x = e.args[0]
+                tx = ct.tinfo(x.ctype) if x.ctype else ('other',)
+                if tx[0] == 'int' and (W is None or tx[1] <= W) and x.op in ('|', '&'):
+                    cands.append(x)
+            e = e.args[0] if is_sym(e.args[0]) else e.args[1]
+            continue
+        if ti[0] == 'int' and (W is None or ti[1] <= W):
+            cands.append(e)
+        break
+    for c_ in cands:
+        def only(e, leaf=c_):
+            if isinstance(e, int):
+                return True
+            if not is_sym(e):
+                return False
+            if e == leaf:
+                return True
+            if e.op in _SWAP_OPS and (e.op == 'cast' or len(e.args) == 2):
+                return all(only(a) for a in e.args)
+            return False
+        if not only(inner):
+            continue
+        LW = ct.tinfo(c_.ctype)[1]
+        W_ = W if W is not None else LW
+        if W_ not in (16, 32, 64):
+            continue
+        basis = [0, (1 << LW) - 1] + [1 << i for i in range(LW)]
+
+        def bsw(x):
+            return int.from_bytes((x & ((1 << W_) - 1)).to_bytes(W_ // 8, 'little'), 'big')
+        if all(_sym_eval(v, c_, x) == bsw(x) for x in basis):
+            if found is not None:
+                found.append(W_)
+            return pe.Sym('bswap%d' % W_, (normalize_swaps(c_, found),), v.ctype)
+    return None
+
+
 def normalize_swaps(v, found=None):
-    """rewrite open-coded byte reversals ((U16)((x >> 8) | (x << 8)) and the 32/64-bit analogues) of a W-bit value into bswapW(x):
-    a cast to an unsigned W-bit type whose operand is built from one leaf by shifts, masks and ors only, and that equals the byte
-    reversal on 0, on all ones and on every single-bit value of the leaf (these operators distribute over bitwise or)"""
+    """rewrite open-coded byte reversals ((U16)((x >> 8) | (x << 8)), mask-and-shift or-trees without a cast, and the 32/64-bit
+    analogues) of a W-bit value into bswapW(x)"""
     if not is_sym(v):
         return v
     if v.op == 'cast' and v.ctype and ct.tinfo(v.ctype)[0] == 'int' and ct.tinfo(v.ctype)[1] in (16, 32, 64) and not ct.tinfo(v.ctype)[2]:
-        W = ct.tinfo(v.ctype)[1]
         inner = v.args[0]
         if is_sym(inner) and inner.op == '|':
-            # candidate "value being reversed": a subterm narrowed to at most W unsigned bits, or an atom; largest first
-            cands = []
-            for x in pe.sym_walk(inner):
-                if not is_sym(x) or x is inner:
-                    continue
-                ti = ct.tinfo(x.ctype) if x.ctype else ('other',)
-                if ti[0] == 'int' and ti[1] <= W and (x.op not in _SWAP_OPS or (x.op == 'cast' and not ti[2])):
-                    cands.append(x)
-            seen_c = []
-            for c_ in sorted(cands, key=lambda x: -len(repr(x))):
-                if any(c_ == y for y in seen_c):
-                    continue
-                seen_c.append(c_)
-
-                def only(e, leaf=c_):
-                    if isinstance(e, int):
-                        return True
-                    if not is_sym(e):
-                        return False
-                    if e == leaf:
-                        return True
-                    if e.op in _SWAP_OPS and (e.op == 'cast' or len(e.args) == 2):
-                        return all(only(a) for a in e.args)
-                    return False
-                if not only(inner):
-                    continue
-                LW = ct.tinfo(c_.ctype)[1]
-                basis = [0, (1 << LW) - 1] + [1 << i for i in range(LW)]
-
-                def bsw(x):
-                    return int.from_bytes((x & ((1 << W) - 1)).to_bytes(W // 8, 'little'), 'big')
-                if all(_sym_eval(v, c_, x) == bsw(x) for x in basis):
-                    if found is not None:
-                        found.append(W)
-                    return pe.Sym('bswap%d' % W, (normalize_swaps(c_, found),), v.ctype)
+            r = _try_swap(v, inner, ct.tinfo(v.ctype)[1], found)
+            if r is not None:
+                return r
+    if v.op == '|' and len(v.args) == 2:
+        r = _try_swap(v, v, None, found)
+        if r is not None:
+            return r
     if v.args and any(is_sym(a) for a in v.args):
         return pe.Sym(v.op, tuple(normalize_swaps(a, found) if is_sym(a) else a for a in v.args), v.ctype)
     return v
@@ -436,7 +461,8 @@ def run(chk):
         'step before the store; RMW and cmpxchg must be single lock regions. Finite flavour table, covered completely.')
     chk.assumptions = ['__builtin_bswapN reverses N/8 bytes', 'alignment of the *(UN*) accesses of readSwap*/writeSwap* on real '
                        'big-endian hardware is not decided', 'embedder-facing DEFINE_SWAP helpers are outside the statement']
-    cfgs = ['be']
+    # 'be-fallback': the same header as a compiler without byte-swap builtins sees it (open-coded mask-and-shift reversals)
+    cfgs = ['be', 'be-fallback']
     callees = template_callees(chk)
     for cfg in cfgs:
         htu = runtime.header(cfg)
@@ -459,8 +485,8 @@ def run(chk):
                 continue
             except pe.PEError as e:
                 bad = 'cannot be evaluated on concrete operands: %s' % e
-            chk.expect(not bad, 'R19.1', '%s@be:concrete' % row['name'], '%s on a big-endian host: %s' % (row['name'], bad),
-                       'runtime/%s@be:bytes' % fn, detail_ok='agrees with the little-endian specification on the concrete family')
+            chk.expect(not bad, 'R19.1', '%s@%s:concrete' % (row['name'], cfg), '%s on a big-endian host%s: %s' % (row['name'], ' (compiler without swap builtins)' if cfg != 'be' else '', bad),
+                       'runtime/%s@%s:bytes' % (fn, cfg), detail_ok='agrees with the little-endian specification on the concrete family')
         check_bulk(chk, htu, cfg)
     # little-endian configuration: no reversal anywhere
     le = runtime.header('le')
